@@ -41,6 +41,11 @@ CHECKS["C02"] = dict(
   text="In every function reachable from the decoding entry points: each classification of an input-derived value (tagged switch / if-else-if chain over constants) sends unlisted values only to error returns, and each switch default arm rejects; every accepting return of the CashAddr payload decoder knows len(regrouped) == 21, regrouping runs 5->8 without padding on decode and 8->5 with padding on encode, a prefix separator was seen and mixed case rejects; the regrouping function rejects exactly under the reference condition (bits >= fromBits, or non-zero padding bits) when not padding; every accepting return of DecodeCashAddress is behind the remainder test and every accepting return of DecodeAddress behind a checksum-verifying decoder or is the raw public-key arm. One known finding (public-key format byte 0x05) is listed in known_findings.json. Value-level injectivity of decoding is not decided.",
   note="Trusted: CashAddr specification constants; bchec.ParsePubKey. The remainder function itself is checked by C03.",
   ref="§3 C02")
+CHECKS["C03"] = dict(
+  technique="structural recogniser over go/ssa that extracts the LFSR parameters (register split, taps, generator constants, init, final xor) of both remainder functions and compares them with the specifications; structural checks of the acceptance comparison, its argument and the decode tables",
+  text="Both remainder functions (reached from DecodeCashAddress and bech32.Decode, not looked up by name) are recognised as the specified LFSRs: c>>K / (c&M)<<5 split, initial value 1, exactly feedback bits 0..4 each tied to the specified generator constant (unrolled or table-driven form), over every input symbol; acceptance compares the whole remainder with the specified constant over expand(prefix)||payload with the payload whole and the specified prefix expansion; symbol decoding is injective and mixed case rejects. Given these, detection of <=5 (CashAddr) / <=4 (bech32) substitutions is the distance theorem of the specifications, which is trusted mathematics and not re-proved here.",
+  note="Trusted: the BCH distance claims and generator constants of the CashAddr and BIP173 specifications. A rewrite into a different algorithm (e.g. byte-at-a-time table) is reported as undecided.",
+  ref="§3 C03")
 
 NA_REASON = {
  "C17": "Every clause with content is a statement about IEEE-754 rounding of f*1e8, a/10^k and shortest-decimal printing over 2.1e15 integers; no fact about the shape of amount.go implies or refutes it, and the two shape-level clauses (NaN/Inf rejected, unit labels) are already pinned by the suite (DESIGN.md §4).",
